@@ -1060,6 +1060,21 @@ def evaluate(t, env, memo=None):
             r = len(evaluate(t.args[0], env, memo))
         elif op in ("concat", "fmt"):
             r = "".join(str(evaluate(a, env, memo)) for a in t.args)
+        elif op.startswith(("call:str.", "call:bytes.")) and op.split(".", 1)[1] in _PURE_METHODS and t.args:
+            # an unbound method used as a function: str.isdecimal(c), str.strip(s), ...
+            vals = [evaluate(a, env, memo) for a in t.args]
+            cls_ = str if op.startswith("call:str.") else bytes
+            if not isinstance(vals[0], cls_):
+                raise CannotEval(repr(t)[:120])
+            r = getattr(cls_, op.split(".", 1)[1])(*vals)
+        elif op == "pct" and len(t.args) == 2:
+            # a %-format whose format string is itself computed: python's own % on the sample values (a stray '%' in the
+            # format raises ValueError / TypeError there - callers decide what that means)
+            f_ = evaluate(t.args[0], env, memo)
+            a_ = evaluate(t.args[1], env, memo)
+            if not isinstance(f_, (str, bytes)):
+                raise CannotEval(repr(t)[:120])
+            r = f_ % (tuple(a_) if isinstance(a_, list) else a_)
         elif op == "fv":
             v = evaluate(t.args[0], env, memo)
             conv = evaluate(t.args[2], env, memo)
